@@ -7,6 +7,8 @@
 From Coq Require Import List ZArith Bool Arith Permutation Sorted.
 Import ListNotations.
 From Verif Require Import Val Index IndexProofs.
+From Verif Require Tokenizer LexItems IndexSource.
+From Verif Require Import IndexRelative.
 Local Open Scope Z_scope.
 
 (* M1: every entry of the makeindex syntax -- any number of levels main!sub!..., each optionally sort@display, every
@@ -151,3 +153,146 @@ Example C18_nonvacuous :
     Some [Node [L 66] [66] [(0, 1)] []; Node [L 98] [98] [(0, 0); (0, 2)] []] /\
   split_columns (fun x : Z => x) [1; 1; 3; 1] 2 = Some [[1; 1; 3]; [1]].
 Proof. exact nonvacuous_example. Qed.
+
+(* ---------------------------------------------------------------------------------------------------------------- *)
+(* Deepening round: the property's first two sentences end to end, the link to the proved tokenizer, column balance.  *)
+
+(* For every document, given as the list of index entries it SPELLS (each with >= 1 level and a well-formed format):
+   parsing every \index argument with index.invoke and building the tree with IndexUtils.digest gives a tree in which
+   no key path occurs twice; the line of path q carries exactly the references of the commands that spell q -- the
+   path being, per level, (text of the sort part or else of the display part, display part) -- numbered in document
+   order and typed see/seealso/normal as spelled; every line is a non-empty prefix of a spelled path; and at every level
+   the lines are in collation order of their sort keys. *)
+Theorem C18_index_of_document :
+  forall (K : Type) (ck : str -> K) (keqb kltb : K -> K -> bool), sto keqb kltb ->
+  forall (tx src : list tok -> str), (forall a b, src a = src b -> a = b) ->
+  forall doc : list ientry, Forall ispec_ok doc ->
+    exists t, digest ck keqb kltb tx src (entries_of tx doc) = Some t /\
+      NoDup (map fst (nodes_f [] t)) /\
+      (forall q, pages_of (nodes_f [] t) q =
+                 map (fun p => (spelled_type (snd p), Z.of_nat (fst p)))
+                     (filter (fun p => path_eqb (spelled_path tx (snd p)) q) (numbered doc))) /\
+      (forall q, In q (map fst (nodes_f [] t)) -> q <> [] /\ exists e, In e doc /\ is_prefix q (spelled_path tx e)) /\
+      forest_sortedb ck kltb t = true.
+Proof. intros K ck keqb kltb HK tx src Hs. exact (index_of_document ck keqb kltb HK tx src Hs). Qed.
+Print Assumptions C18_index_of_document.
+Example C18_document_nonvacuous :
+  Forall ispec_ok doc_example /\
+  digest ck_lower zs_eqb zs_lt tx_c src_c (entries_of tx_c doc_example) =
+    Some [Node [L 66] [66] [(1, 1)] [];
+          Node [(0, [116;101;120;116;98;102]); (1, [123]); L 98; (2, [125])] [98] [] [Node [L 121] [121] [(0, 2)] []];
+          Node [L 98] [98] [(0, 0)] []].
+Proof. exact doc_example_ok. Qed.
+
+(* C18 x C01.  Under plasTeX's default category table (regenerated from the source, Gen/Catcodes.v) the characters
+   double-quote ! @ | are of category other, the blank is a space, the braces delimit: the categories index.invoke tests for. *)
+Theorem C18_default_categories :
+  let code := Tokenizer.which_code Tokenizer.default_table in
+  code 34%N = 12%N /\ code 33%N = 12%N /\ code 64%N = 12%N /\ code 124%N = 12%N /\ code 32%N = 10%N /\
+  code 123%N = 1%N /\ code 125%N = 2%N /\ code 92%N = 0%N.
+Proof. exact IndexSource.default_categories. Qed.
+Print Assumptions C18_default_categories.
+
+(* If the argument of an \index command is WRITTEN with the tokens ts -- each character token carrying the category of
+   its character, blanks only where TeX does not skip them (lex_ok), the written text well formed in the sense of C01's
+   lexical items (items_ok: e.g. a control word is not followed by a letter) -- then the proved tokenizer of C01 turns
+   the characters  \index{...}  into the tokens \index { ts } : the token model of C18 is the one of C01. *)
+Theorem C18_index_source_tokens :
+  forall (ts : list tok) (its : list LexItems.item),
+    IndexSource.items_of ts = Some its -> IndexSource.lex_ok Tokenizer.SM ts = true ->
+    LexItems.items_ok Tokenizer.default_table (IndexSource.index_cmd its) = true ->
+    Tokenizer.tokenize Tokenizer.default_table (LexItems.print_items (IndexSource.index_cmd its))
+      = Tokenizer.RToks (IndexSource.index_tokens (map IndexSource.conv ts)) /\
+    map IndexSource.unconv (map IndexSource.conv ts) = ts.
+Proof. exact IndexSource.index_source_tokens. Qed.
+Print Assumptions C18_index_source_tokens.
+
+(* ... hence, with M1: for every entry e of the makeindex syntax whose printed form is so written, tokenizing the
+   CHARACTERS of \index{<e>} and running index.invoke on the tokens between the braces stores exactly what e spells. *)
+Theorem C18_index_source_entry :
+  forall (tx : list tok -> str) (e : ientry) (its : list LexItems.item),
+    i_levels e <> [] -> fmt_ok (i_fmt e) ->
+    IndexSource.items_of (print_entry e) = Some its -> IndexSource.lex_ok Tokenizer.SM (print_entry e) = true ->
+    LexItems.items_ok Tokenizer.default_table (IndexSource.index_cmd its) = true ->
+    exists toks,
+      Tokenizer.tokenize Tokenizer.default_table (LexItems.print_items (IndexSource.index_cmd its))
+        = Tokenizer.RToks (IndexSource.index_tokens toks) /\
+      parse_entry tx (map IndexSource.unconv toks) =
+        (map l_disp (i_levels e), map (fun l => tx (sort_part l)) (i_levels e),
+         match i_fmt e with
+         | None => (None, 0)
+         | Some (name, args) => (Some ((0, name) :: args ++ [(0, s_ipn)]), fmt_type name)
+         end).
+Proof. exact IndexSource.index_source_entry. Qed.
+Print Assumptions C18_index_source_entry.
+Example C18_source_nonvacuous :   (* \index{Zeta!b@\textbf{B}|see{x y}} *)
+  exists its, IndexSource.items_of (print_entry IndexSource.ex_entry) = Some its /\
+              IndexSource.lex_ok Tokenizer.SM (print_entry IndexSource.ex_entry) = true /\
+              LexItems.items_ok Tokenizer.default_table (IndexSource.index_cmd its) = true /\
+              LexItems.print_items (IndexSource.index_cmd its) =
+                [92;105;110;100;101;120;123; 90;101;116;97; 33; 98; 64; 92;116;101;120;116;98;102;123;66;125; 124;115;101;101;123;120;32;121;125; 125]%N.
+Proof. exact IndexSource.index_source_example. Qed.
+
+(* M5, balance: every column but the first (which takes what remains) weighs at most floor(total / index-columns) unless
+   it is a single entry; empty columns come last; the weight of an entry is the number of index lines it shows. *)
+Theorem C18_columns_balance :
+  forall (A : Type) (size : A -> Z) (items : list A) (cols : Z) (cs : list (list A)),
+    1 <= cols -> split_columns size items cols = Some cs ->
+    Forall (fun col => weight size col <= Z.quot (fold_left (fun a it => a + size it) items 0) cols \/ (length col <= 1)%nat) (tl cs).
+Proof. exact @columns_balance. Qed.
+Print Assumptions C18_columns_balance.
+Theorem C18_columns_empty_last :
+  forall (A : Type) (size : A -> Z) (items : list A) (cols : Z) (cs : list (list A)),
+    split_columns size items cols = Some cs ->
+    exists full n, cs = full ++ repeat [] n /\ Forall (fun col => col <> []) full.
+Proof. exact @columns_empty_last. Qed.
+Print Assumptions C18_columns_empty_last.
+Theorem C18_totallen_counts_lines : forall (n : node) (pre : path), totallen n = Z.of_nat (length (nodes_at pre n)).
+Proof. exact totallen_counts_lines. Qed.
+Print Assumptions C18_totallen_counts_lines.
+Example C18_balance_nonvacuous :
+  split_columns (fun x : Z => x) [1; 1; 3; 1; 2; 2] 3 = Some [[1; 1; 3]; [1; 2]; [2]] /\
+  Z.quot (fold_left (fun a it => a + it) [1; 1; 3; 1; 2; 2] 0) 3 = 3.
+Proof. exact balance_example. Qed.
+
+(* The hypothesis on .source, relative to the document.  "Two keys with the same .source are the same key" cannot hold for
+   ALL token lists of real LaTeX (\textbf x and \textbf{x} have one source; the concrete rule of the harness is not injective
+   either: C18_src_c_not_injective).  M2, M3 and the document theorem hold as soon as it holds among the keys that occur
+   in the document at hand (inj_on ... (keys_of es) / (displays doc)). *)
+Theorem C18_merge_complete_rel :
+  forall (K : Type) (ck : str -> K) (keqb kltb : K -> K -> bool), sto keqb kltb ->
+  forall (tx src : list tok -> str) (es : list entry),
+    (forall a b, In a (keys_of es) -> In b (keys_of es) -> src a = src b -> a = b) -> Forall wf es ->
+    exists t, digest ck keqb kltb tx src es = Some t /\
+      NoDup (map fst (nodes_f [] t)) /\
+      Permutation (all_pages (nodes_f [] t)) (map pg es) /\
+      (forall q, pages_of (nodes_f [] t) q = map pg (filter (fun e => path_eqb (labels e) q) es)) /\
+      (forall q, In q (map fst (nodes_f [] t)) -> q <> [] /\ exists e, In e es /\ is_prefix q (labels e)).
+Proof. intros K ck keqb kltb HK tx src. exact (merge_complete_rel ck keqb kltb HK tx src). Qed.
+Print Assumptions C18_merge_complete_rel.
+
+Theorem C18_sorted_levels_rel :
+  forall (K : Type) (ck : str -> K) (keqb kltb : K -> K -> bool), sto keqb kltb ->
+  forall (tx src : list tok -> str) (es : list entry) t,
+    (forall a b, In a (keys_of es) -> In b (keys_of es) -> src a = src b -> a = b) -> Forall wf es ->
+    digest ck keqb kltb tx src es = Some t -> forest_sortedb ck kltb t = true.
+Proof. intros K ck keqb kltb HK tx src. exact (sorted_levels_rel ck keqb kltb HK tx src). Qed.
+Print Assumptions C18_sorted_levels_rel.
+
+Theorem C18_index_of_document_rel :
+  forall (K : Type) (ck : str -> K) (keqb kltb : K -> K -> bool), sto keqb kltb ->
+  forall (tx src : list tok -> str) (doc : list ientry),
+    (forall a b, In a (displays doc) -> In b (displays doc) -> src a = src b -> a = b) -> Forall ispec_ok doc ->
+    exists t, digest ck keqb kltb tx src (entries_of tx doc) = Some t /\
+      NoDup (map fst (nodes_f [] t)) /\
+      (forall q, pages_of (nodes_f [] t) q =
+                 map (fun p => (spelled_type (snd p), Z.of_nat (fst p)))
+                     (filter (fun p => path_eqb (spelled_path tx (snd p)) q) (numbered doc))) /\
+      (forall q, In q (map fst (nodes_f [] t)) -> q <> [] /\ exists e, In e doc /\ is_prefix q (spelled_path tx e)) /\
+      forest_sortedb ck kltb t = true.
+Proof. intros K ck keqb kltb HK tx src. exact (index_of_document_rel ck keqb kltb HK tx src). Qed.
+Print Assumptions C18_index_of_document_rel.
+Example C18_rel_nonvacuous :
+  (forall a b, In a (displays doc_example) -> In b (displays doc_example) -> src_c a = src_c b -> a = b) /\
+  (exists a b, src_c a = src_c b /\ a <> b).
+Proof. exact (conj doc_example_inj_on src_c_not_injective). Qed.
